@@ -46,7 +46,8 @@ def attr_value(rng):
         return bytes([t, n]) + D.le(x, n), "uint %d" % x
     if t == 3:
         n = rng.choice([1, 2, 4]); x = rng.below(1 << (8 * n))
-        shown = x if n != 2 else (x if x < 0x8000 else x + 0xFFFF0000)
+        # two's complement of n bytes, shown as the u32 pattern of the sign-extended value
+        shown = x if x < (1 << (8 * n - 1)) else x + (1 << 32) - (1 << (8 * n))
         return bytes([t, n]) + D.le(x, n), "int %d" % shown
     if t == 4:
         n = rng.choice([4, 8]); x = rng.below(1 << (8 * n))
@@ -507,12 +508,94 @@ class C09(Prop):
         # 7. the request builders, re-parsed
         for _ in range(60 if quick else 1500):
             out.append(self.encode_case(rng, sid()))
+
+        # 8. the outstation's RangeWriter / EventWriter through the production Database, re-parsed
+        #    (implementation only: the writers are modelled by the db engine, the oracle checks the listing)
+        for _ in range(40 if quick else 1500):
+            out.append(self.dbwrite_case(rng, sid()))
         return out
+
+    SVARS = {"bi": [1, 2], "dbi": [1, 2], "ctr": [1, 2, 5, 6], "ai": [1, 2, 3, 4, 5, 6], "oct": [0]}
+    EVARS = {"bi": [1, 2, 3], "dbi": [1, 2, 3], "ctr": [1, 2, 5, 6], "ai": [1, 2, 3, 4, 5, 6, 7, 8], "oct": [0]}
+
+    def dbwrite_case(self, rng, s):
+        points, seen = [], set()
+        base = rng.choice([0, 0, 5, 250, 65530])
+        t0 = rng.below(1 << 40)
+        for _ in range(rng.range(1, 14)):
+            ty = rng.choice(["bi", "bi", "bi", "dbi", "dbi", "ctr", "ai", "oct"])
+            idx = min(65535, base + rng.choice([0, 1, 2, 3, 4, 5, 7, 8, 9, 16, 17]))
+            if (ty, idx) in seen:
+                continue
+            seen.add((ty, idx))
+            cls = rng.below(4)
+            if ty == "bi": value = str(rng.below(2))
+            elif ty == "dbi": value = str(rng.below(4))
+            elif ty == "ctr": value = str(rng.choice([0, 1, 65535, 65536, 0xFFFFFFFF, rng.below(1 << 32)]))
+            elif ty == "ai": value = "%016x" % rng.choice([0, 0x400921FB54442D18, 0xC0F86A0000000000, 0x7FF8000000000000, 0x41F0000000000000, rng.next()])
+            else: value = rng.bytes(rng.choice([1, 1, 4, 4, 4, 255])).hex()
+            flags = rng.choice([1, 1, 1, 1, 0x41, 0x21, 0x00, 0x03, rng.below(256)])
+            time = rng.choice(["n", "s%d" % t0, "s%d" % (t0 + rng.below(65536)), "s%d" % (t0 + 70000 + rng.below(1000)),
+                               "u%d" % (t0 + rng.below(65536)), "s%d" % rng.below(1 << 48)])
+            points.append({"type": ty, "index": idx, "class": cls, "svar": rng.choice(self.SVARS[ty]), "evar": rng.choice(self.EVARS[ty]),
+                           "value": value, "flags": flags, "time": time})
+        toks = ["dbwrite", 4096] + ["%s,%d,%d,%d,%d,%s,%02x,%s" % (p["type"], p["index"], p["class"], p["svar"], p["evar"], p["value"], p["flags"], p["time"])
+                                   for p in points]
+        return Case(s, script_text(s, "app", {}, [tuple(toks)]),
+                    {"kind": "dbwrite", "impl_only": True, "ops": [{"expect": "dbwrite", "points": points}]})
+
+    STATIC_GROUP = {1: "bi", 3: "dbi", 20: "ctr", 30: "ai", 110: "oct"}
+    EVENT_GROUP = {2: "bi", 4: "dbi", 22: "ctr", 32: "ai", 111: "oct"}
+
+    def check_dbwrite(self, m, b):
+        """what the outstation's writers emitted must parse into exactly the points that were written"""
+        if not b or not b[0].startswith("bytes "):
+            return "no bytes written: " + " / ".join(b)[:120]
+        data = bytes.fromhex(b[0].split()[1])
+        listing = b[1:]
+        if any(l.startswith("obj-err") or l.startswith("hdr-err") for l in listing):
+            return "the library cannot parse its own response: " + " / ".join(listing)[:160]
+        why = reencode(listing, data)
+        if why:
+            return "response not decoded to what was encoded: " + why
+        statics, events = {}, {}
+        g = v = None
+        for l in listing[2:]:
+            t = l.split()
+            if t[0] == "h":
+                g, v = int(t[1]), int(t[2])
+            elif t[0] == "o" and t[1] != "-":
+                obj = (int(t[1]), v, bytes.fromhex(t[2]) if t[2] != "-" else b"")
+                if g in self.STATIC_GROUP: statics.setdefault(self.STATIC_GROUP[g], []).append(obj)
+                elif g in self.EVENT_GROUP: events.setdefault(self.EVENT_GROUP[g], []).append(obj)
+        for ty in ("bi", "dbi", "ctr", "ai", "oct"):
+            want = sorted(p["index"] for p in m["points"] if p["type"] == ty)
+            got = [o[0] for o in statics.get(ty, [])]
+            if got != want:
+                return "static %s points written at %s, parsed at %s" % (ty, want, got)
+            wante = sorted(p["index"] for p in m["points"] if p["type"] == ty and p["class"] != 0)
+            gote = sorted(o[0] for o in events.get(ty, []))
+            if gote != wante:
+                return "%s events written for %s, parsed for %s" % (ty, wante, gote)
+        for p in m["points"]:
+            if p["type"] == "bi":
+                for (idx, var, val) in statics.get("bi", []):
+                    if idx == p["index"]:
+                        want = bytes([int(p["value"])]) if var == 1 else bytes([(p["flags"] & 0x7F) | (int(p["value"]) << 7)])
+                        if val != want:
+                            return "binary input %d written as value %s flags %02x, parsed as g1v%d %s" % (idx, p["value"], p["flags"], var, val.hex())
+            if p["type"] == "oct":
+                for (idx, var, val) in statics.get("oct", []) + events.get("oct", []):
+                    if idx == p["index"] and val.hex() != p["value"]:
+                        return "octet string %d written as %s, parsed as %s" % (idx, p["value"], val.hex())
+        return None
 
     def encode_case(self, rng, s):
         seq = rng.below(16)
         cap = rng.choice([2048, 2048, 2048, 249, 40, 12, 4096])
-        kind = rng.choice(["read", "read", "cmd", "cmd", "one", "restart"])
+        kind = rng.choice(["read", "read", "cmd", "cmd", "one", "restart", "attr", "attr"])
+        if kind == "attr":
+            return self.encode_attr_case(rng, s, seq)
         headers = []     # (op tokens, Header)
         if kind == "read":
             fc = D.FC_READ
@@ -581,6 +664,33 @@ class C09(Prop):
                 meta = {"expect": "encode", "bytes": hexs(data), "lines": lines + ["end"]}
         return Case(s, script_text(s, "app", {"cap": cap}, [tuple(toks)]), {"kind": "encode-" + kind, "ops": [meta]})
 
+    def encode_attr_case(self, rng, s, seq):
+        """HeaderWriter::write_attribute: whatever length the writer picks, the value must come back"""
+        st, var = rng.below(256), rng.choice(ATTR_VARS + [2, 100])
+        ty = rng.choice(["int", "int", "int", "uint", "vstr", "ostr", "bstr", "f32", "f64", "time"])
+        if ty == "int":
+            x = rng.choice([0, 1, -1, -2, 126, 127, 128, -127, -128, -129, 255, 32766, 32767, -32768, -32769, 2147483647, -2147483648,
+                            rng.range(-200, 200), rng.range(-40000, 40000)])
+            value, shown = str(x), "int %d" % (x % (1 << 32))
+        elif ty == "uint":
+            x = rng.choice([0, 255, 256, 65535, 65536, 4294967295, rng.below(1 << 32)])
+            value, shown = str(x), "uint %d" % x
+        elif ty in ("vstr", "ostr", "bstr"):
+            b = utf8_string(rng) if ty == "vstr" else rng.bytes(rng.choice([0, 1, 7, 255]))
+            if rng.chance(1, 8): b = b"x" * 256       # too long for the one-byte length: the writer must refuse
+            value, shown = hexs(b), "%s %s" % (ty, hexs(b))
+        elif ty in ("f32", "f64"):
+            x = rng.below(1 << (32 if ty == "f32" else 64))
+            value, shown = str(x), "%s %d" % (ty, x)
+        else:
+            x = rng.below(1 << 48)
+            value, shown = str(x), "time %d" % x
+        cap = rng.choice([2048, 2048, 300, 8])
+        meta = {"expect": "encode-attr", "line": "a %d %d %s" % (st, var, shown), "head": "h 0 %d 0 %d %d" % (var, st, st),
+                "unencodable": ty in ("vstr", "ostr", "bstr") and value != "-" and len(value) // 2 > 255}
+        return Case(s, script_text(s, "app", {"cap": cap}, [("encode", seq, D.FC_WRITE, "attr", st, var, ty, value)]),
+                    {"kind": "encode-attr", "ops": [meta]})
+
     # ---- the property, checked directly on the implementation's trace ------------------------------------
     def oracle(self, case, impl):
         fails = []
@@ -615,6 +725,19 @@ class C09(Prop):
                     fails.append(("builder-bytes", "the builder wrote %s, the request is %s" % (b[0][:120] if b else None, m["bytes"][:120])))
                 elif b[1:] != m["lines"]:
                     fails.append(("encoded-not-decoded", "a built request was not decoded to what was encoded: " + " / ".join(b[1:])[:200]))
+            elif e == "dbwrite":
+                why = self.check_dbwrite(m, b)
+                if why:
+                    fails.append(("response-not-decoded", why))
+            elif e == "encode-attr":
+                if accepted:
+                    if m["unencodable"]:
+                        fails.append(("builder-accepts-unencodable", "an attribute longer than 255 octets was written: " + " / ".join(b)[:120]))
+                    elif b[3:5] != [m["head"], m["line"]] or b[5:] != ["end"]:
+                        fails.append(("encoded-not-decoded", "a written attribute was not decoded to what was written: expected %r, parsed %r"
+                                      % (m["line"], " / ".join(b[3:])[:160])))
+                elif not any(l.startswith("encode-err") for l in b):
+                    fails.append(("encoded-not-decoded", "a written attribute was rejected by the parser: " + " / ".join(b)[:200]))
             elif e == "encode-reject":
                 if accepted:
                     fails.append(("builder-accepts-unencodable", "the builder produced bytes for a request that cannot be encoded: " + " / ".join(b)[:160]))
